@@ -62,3 +62,22 @@ twin(
 twin("C01-T3", "C01", "reversed edge and reversed(topological_sort)", M, "Model._set_exec_order", "                            G.add_edge(link.source, link.dest)\n\n        assert nx.dag.is_directed_acyclic_graph(G), \"There is a cycle present where one junction has flows into another, which results in an infinite loop and is not permitted\"\n        exec_order[\"junctions\"] = list(nx.dag.topological_sort(G))", "                            G.add_edge(link.dest, link.source)\n\n        assert nx.dag.is_directed_acyclic_graph(G), \"cycle\"\n        exec_order[\"junctions\"] = list(reversed(list(nx.dag.topological_sort(G))))")
 twin("C01-T4", "C01", "tr inlined in SinkCompartment.update", M, "SinkCompartment.update", "        tr = ti - 1\n        v = self.vals[tr]\n        for link in self.inlinks:\n            v += link.vals[tr]", "        v = self.vals[ti - 1]\n        for link in self.inlinks:\n            v += link.vals[ti - 1]")
 twin("C01-T5", "C01", "product operands swapped in resolve_outflows", M, "TimedCompartment.resolve_outflows", "                self._cached_outflow += n * link._cache", "                self._cached_outflow += link._cache * n")
+
+# =============================================================================================== C02
+mutant("C02-M1", "C02", "R02a", "rescale = 1 even when outflow > 1", M, "Compartment.resolve_outflows", "rescale = 1 / outflow", "rescale = 1")
+mutant("C02-M2", "C02", "R02a", "threshold outflow > 2", M, "Compartment.resolve_outflows", "if outflow > 1:", "if outflow > 2:")
+mutant("C02-M3", "C02", "R02b", "negative clamp deleted", M, "Model.update_links", "                transition = 0\n", "                pass\n")
+mutant("C02-M4", "C02", "R02c", "divide by source_popsize unconditionally", M, "Model.update_links", "                if source_popsize:\n                    converted_frac = converted_amt / source_popsize\n                else:\n                    converted_frac = 0.0\n", "                converted_frac = converted_amt / source_popsize\n")
+mutant("C02-M5", "C02", "R02d", "masked clip deleted in TimedCompartment.update", M, "TimedCompartment.update", "        self._vals[self._vals[:, ti] < 0, ti] = 0", "        pass")
+mutant("C02-M6", "C02", "R02d", "Compartment.update stores v unconditionally", M, "Compartment.update", "        if v > 0:\n            self.vals[ti] = v\n        else:\n            self.vals[ti] = 0.0", "        self.vals[ti] = v")
+mutant("C02-M7", "C02", "R02d", "flush link without max(0, .)", M, "TimedCompartment.resolve_outflows", "max(0, self._vals[0, ti] - self._cached_outflow[0])", "self._vals[0, ti] - self._cached_outflow[0]")
+mutant("C02-M8", "C02", "R02a", "n recomputed per link", M, "Compartment.resolve_outflows", "            link.vals[ti] = link._cache * n\n", "            n = min(1.0, link._cache) * self.vals[ti]\n            link.vals[ti] = link._cache * n\n")
+mutant("C02-M9", "C02", "R02a", "timed: where=total_outflow > 2", M, "TimedCompartment.resolve_outflows", "where=total_outflow > 1", "where=total_outflow > 2")
+mutant("C02-M10", "C02", "R02a", "timed: link value bypasses rescaled stock", M, "TimedCompartment.resolve_outflows", "link._vals[:, ti] = n * link._cache", "link._vals[:, ti] = self._vals[:, ti] * link._cache")
+mutant("C02-M11", "C02", "R02b", "zero short-circuit deleted", M, "Model.update_links", "            if not transition:\n                for link in par.links:\n                    link._cache = 0.0\n                continue\n", "")
+mutant("C02-M12", "C02", "R02a", "normal links excluded from the total in timed compartments", M, "TimedCompartment.resolve_outflows", "            else:\n                total_outflow[:] += link._cache  # Normal link outflows do act on the final subcompartment\n", "")
+twin("C02-T1", "C02", "ternary form of the rescale", M, "Compartment.resolve_outflows", "        if outflow > 1:\n            rescale = 1 / outflow\n        else:\n            rescale = 1\n", "        rescale = 1 / outflow if outflow > 1 else 1\n")
+twin("C02-T2", "C02", "clamp written as max()", M, "Model.update_links", "            if transition < 0:", "            transition = max(transition, 0)\n            if False:")
+twin("C02-T3", "C02", "if source_popsize != 0", M, "Model.update_links", "                if source_popsize:\n", "                if source_popsize != 0:\n")
+twin("C02-T4", "C02", "np.where form for the timed sibling", M, "TimedCompartment.resolve_outflows", "rescale = np.divide(1, total_outflow, out=np.ones_like(total_outflow), where=total_outflow > 1)", "rescale = np.where(total_outflow > 1, 1 / total_outflow, 1)")
+twin("C02-T5", "C02", "np.maximum clip in TimedCompartment.update", M, "TimedCompartment.update", "        self._vals[self._vals[:, ti] < 0, ti] = 0", "        self._vals[:, ti] = np.maximum(self._vals[:, ti], 0)")
